@@ -22,6 +22,17 @@ type validateArgs struct {
 	ValidateDefaults bool `json:"validateDefaults"`
 	// UseNumber: instances are decoded with json.Decoder.UseNumber (numbers arrive as json.Number)
 	UseNumber bool `json:"usenumber"`
+	// Aliases: [[uri, target]...] — a registry Loader: the Loader answers a request for `uri` with the SAME parsed *Schema object
+	// it hands out for `target` (parsed once, kept), where target is the URI of an entry of docs, or "#root" for the very object
+	// Resolve is being called on. With aliases present every document is parsed at most once per target, so one object can be
+	// served under several URLs (a /v1/ and a /latest/ name of one registry entry). Absent (the default): every Loader call
+	// unmarshals a fresh object, as before.
+	Aliases [][2]string `json:"aliases"`
+	// MaxLoads > 0: a Loader that gives up — it answers the first MaxLoads requests and fails every later one, and the reply carries
+	// "overrun": true. For universes whose resolution must ask for each document at most once: a load/resolve recursion that would
+	// never end with a Loader that keeps answering (a stack overflow that kills the process) then shows as an overrun instead.
+	// 0 (the default): the Loader always answers, as before.
+	MaxLoads int `json:"maxLoads"`
 }
 
 type universe struct {
@@ -29,6 +40,8 @@ type universe struct {
 	opts   *jsonschema.ResolveOptions
 	log    []string
 	loaded []*jsonschema.Schema
+	// overrun: the Loader was asked more often than maxLoads allows
+	overrun bool
 }
 
 // buildUniverse unmarshals the root and prepares a Loader over the documents.
@@ -52,6 +65,11 @@ func buildUniverse(a *validateArgs) (*universe, error, error) {
 		}
 		docs[uri] = d[1]
 	}
+	alias := map[string]string{}
+	for _, al := range a.Aliases {
+		alias[al[0]] = al[1]
+	}
+	shared := map[string]*jsonschema.Schema{} // target URI -> the one object served for it (only used when aliases are given)
 	hasLoader := len(a.Docs) > 0
 	if a.Loader != nil {
 		hasLoader = *a.Loader
@@ -60,7 +78,22 @@ func buildUniverse(a *validateArgs) (*universe, error, error) {
 	if hasLoader {
 		u.opts.Loader = func(uri *url.URL) (*jsonschema.Schema, error) {
 			key := uri.String()
+			if a.MaxLoads > 0 && len(u.log) >= a.MaxLoads {
+				u.overrun = true
+				return nil, errors.New("loader gave up: too many requests")
+			}
 			u.log = append(u.log, key)
+			if len(alias) > 0 {
+				if t, ok := alias[key]; ok {
+					key = t
+				}
+				if key == "#root" {
+					return u.root, nil
+				}
+				if s, ok := shared[key]; ok {
+					return s, nil
+				}
+			}
 			body, ok := docs[key]
 			if !ok {
 				return nil, errors.New("no such document")
@@ -83,6 +116,9 @@ func buildUniverse(a *validateArgs) (*universe, error, error) {
 				return nil, err
 			}
 			u.loaded = append(u.loaded, s)
+			if len(alias) > 0 {
+				shared[key] = s
+			}
 			return s, nil
 		}
 	}
@@ -103,6 +139,16 @@ func safeValidate(rs *jsonschema.Resolved, inst any) (verdict string) {
 
 func init() {
 	register("validate", func(args json.RawMessage) (any, error) {
+		var a validateArgs
+		if err := json.Unmarshal(args, &a); err != nil {
+			return nil, err
+		}
+		return doValidate(&a)
+	})
+	// validate-go: the same operation under a second name that the Lean driver does not know (it answers "unknown op", so the
+	// model is never evaluated on it). For universes the model does not cover (a Loader that hands out one *Schema object under
+	// several URLs — `aliases` —, URIs with a userinfo part): the plugin judges these by its own oracle of the property statement.
+	register("validate-go", func(args json.RawMessage) (any, error) {
 		var a validateArgs
 		if err := json.Unmarshal(args, &a); err != nil {
 			return nil, err
@@ -148,7 +194,11 @@ func doValidate(ap *validateArgs) (any, error) {
 		}
 		rs, err := u.root.Resolve(u.opts)
 		if err != nil {
-			return map[string]any{"outcome": "resolve-error", "detail": err.Error(), "log": u.log}, nil
+			res := map[string]any{"outcome": "resolve-error", "detail": err.Error(), "log": u.log}
+			if u.overrun {
+				res["overrun"] = true
+			}
+			return res, nil
 		}
 		var verdicts []string
 		if a.GInsts != nil {
@@ -192,8 +242,12 @@ func doValidate(ap *validateArgs) (any, error) {
 		if targets == nil {
 			targets = []jsonschema.VerifTarget{}
 		}
-		return map[string]any{"outcome": "resolved", "verdicts": verdicts, "log": u.log, "draft": draft,
-			"targets": targets}, nil
+		res := map[string]any{"outcome": "resolved", "verdicts": verdicts, "log": u.log, "draft": draft,
+			"targets": targets}
+		if u.overrun {
+			res["overrun"] = true
+		}
+		return res, nil
 	}
 }
 
